@@ -72,3 +72,11 @@ def flattened_schema_closed_members(job, failure) -> bool:
     """C06: the disagreement disappears when the members of an allOf closed by
     unevaluatedProperties do not carry their own additionalProperties"""
     return _rerun(job, failure, repair=True)
+
+
+def dependent_required_exclude_defaults(job, failure) -> bool:
+    """C07: the output validates once dependentRequired is removed from the schema, and
+    the job runs with exclude_defaults"""
+    if not job.get("opts", {}).get("exclude_defaults"):
+        return False
+    return _rerun(job, failure, drop_dependent_required=True)
